@@ -2,8 +2,10 @@ import GV.Model.Offsets
 /-
   C07 — witness-set component ranges (datums, redeemers, scripts), core Lean only.
   Mirrors ledger/common/common.go extractWitnessComponentOffsets, extractDatumOffsets,
-  extractRedeemerOffsets / …MapOffsets / …ArrayOffsets, extractScriptArrayOffsets
-  (after the repair that keys Plutus scripts by language ‖ script bytes).
+  extractRedeemerOffsets / …MapOffsets / …ArrayOffsets, extractScriptArrayOffsets — as the
+  code is: EVERY script (native or Plutus) is keyed by language ‖ <CBOR item bytes>
+  (`extractorKeyBytes`), although `PlutusV1..V4Script.Hash()` hashes language ‖ <script
+  bytes> (`scriptHashBytes`): recorded finding `script-key`.
   The Go maps are keyed by hashes; the model keys them by the hashed bytes themselves
   (equal bytes ⇔ equal key for an injective digest), a later entry replacing an earlier one.
 -/
@@ -11,6 +13,8 @@ namespace GV.Model.OffsetsWit
 open GV.Cbor GV.Model.Offsets
 
 structure Comp where
+  /-- number of Plutus (non-native) script entries: the known-finding class `script-key` -/
+  plutus : Nat := 0
   datums : List (Nat × Nat) := []
   /-- (tag mod 256, index mod 2^32, offset, length) -/
   redeemers : List (Nat × Nat × Nat × Nat) := []
@@ -134,6 +138,15 @@ def byteStringContent (b : Bytes) : Option Bytes :=
     else if b.length < hlen + arg then none else some (slice b hlen arg)
   | _ => none
 
+/-- the bytes (after the language byte) the extractor hashes into the `Scripts` key: the
+    CBOR item as it stands in the array, for every language -/
+def extractorKeyBytes (_ty : Nat) (item : Bytes) : Bytes := item
+
+/-- the bytes (after the language byte) `Script.Hash()` hashes: a native script's CBOR, a
+    Plutus script's bytes = the CONTENT of the byte string -/
+def scriptHashBytes (ty : Nat) (item : Bytes) : Option Bytes :=
+  if ty = 0 then some item else byteStringContent item
+
 /-- `extractScriptArrayOffsets`: entries keyed by (language, hashed bytes) -/
 def scriptEntries (data : Bytes) (base : Nat) (ty : Nat) (acc : List ((Nat × Bytes) × Nat × Nat)) :
     List ((Nat × Bytes) × Nat × Nat) :=
@@ -145,10 +158,7 @@ def scriptEntries (data : Bytes) (base : Nat) (ty : Nat) (acc : List ((Nat × By
     let rec go : Nat → List Bytes → List ((Nat × Bytes) × Nat × Nat) → List ((Nat × Bytes) × Nat × Nat)
       | _, [], acc => acc
       | pos, it :: rest, acc =>
-        if ty = 0 then go (pos + it.length) rest (put acc (ty, it) (base + pos, it.length))
-        else match byteStringContent it with
-          | some c => go (pos + it.length) rest (put acc (ty, c) (base + pos, it.length))
-          | none => go (pos + it.length) rest acc
+        go (pos + it.length) rest (put acc (ty, extractorKeyBytes ty it) (base + pos, it.length))
     go hs items acc
 
 structure Acc where
@@ -200,7 +210,8 @@ def witnessComponents (data : Bytes) (base : Nat) : Comp :=
   { datums := sortBy ltRange (a.d.map (·.2)),
     redeemers := sortBy (fun x y => x.1 < y.1 || (x.1 == y.1 && x.2.1 < y.2.1))
       (a.r.map fun e => (e.1.1, e.1.2, e.2.1, e.2.2)),
-    scripts := sortBy ltRange (a.s.map (·.2)) }
+    scripts := sortBy ltRange (a.s.map (·.2)),
+    plutus := (a.s.filter fun e => e.1.1 != 0).length }
 
 /-- components of every transaction, as `ExtractTransactionOffsets` fills them in: the
     Shelley+ and Dijkstra paths call `extractWitnessComponentOffsets(rawWitness, witnessPos)`,
